@@ -930,8 +930,20 @@ fn gen_clip(rng: &mut crate::prng::Rng, w: i32, h: i32) -> Op {
 
 /// well-nested random scene
 pub fn gen_scene(rng: &mut crate::prng::Rng, prof: &SceneProfile) -> Scene {
-    let w = rng.int(1, prof.max_size as i64) as i32;
-    let h = rng.int(1, prof.max_size as i64) as i32;
+    let mut w = rng.int(1, prof.max_size as i64) as i32;
+    let mut h = rng.int(1, prof.max_size as i64) as i32;
+    // now and then a long and flat or tall and narrow surface (spans longer than any chunk size)
+    match rng.below(16) {
+        0 => {
+            w = rng.int(33, 90) as i32;
+            h = rng.int(1, 3) as i32;
+        }
+        1 => {
+            h = rng.int(33, 70) as i32;
+            w = rng.int(1, 3) as i32;
+        }
+        _ => {}
+    }
     let n = (w * h) as usize;
     let init = match rng.below(5) {
         0 => patchwork(rng, w as usize, h as usize),
